@@ -292,6 +292,11 @@ pub enum CqlRequestSerializationError {
     /// Request body compression failed.
     #[error("Snap compression error: {0}")]
     SnapCompressError(Arc<dyn Error + Sync + Send>),
+
+    /// The request body does not fit in a CQL frame,
+    /// whose length fields are 32 bits wide.
+    #[error("Request body too large: {0} bytes do not fit in a CQL frame")]
+    BodyTooLarge(usize),
 }
 
 /// An error type returned when deserialization of CQL
